@@ -546,6 +546,10 @@ def run(chk: Check):
     rule_x7(chk)
     rule_path_literal_gate(chk)   # a plain string literal must stay a Constant
     rule_path_literal_wrap(chk)
+    from . import c12
+    from ..pyflow import Index as _Index
+    c12.rule_z1(chk, _Index())     # both entry points read lines the same way (CR / CRLF sources)
+    c12.rule_z2_z3(chk, _Index())
     # Tree equality with CPython rests on the token stream and on node well-formedness: the rule sets of C04 (ASDL shape,
     # contexts, locations), C08 (token text/positions) and C09 (lexical agreement with CPython) are necessary conditions of
     # C01 as well and are evaluated here under their own rule ids.
